@@ -103,6 +103,8 @@ Definition arm_rows (a : A) (ds : list A) (rs : list R) (cx : mat (R:=R)) : mat 
   let sel := filter (fun t => aeqb (fst (fst t)) a) (combine (combine ds rs) cx) in
   (map snd sel, map (fun t => snd (fst t)) sel).
 
+Definition ncols (cx : mat (R:=R)) : nat := match cx with r :: _ => length r | [] => O end.
+
 (* _fit_arm : deep copy (the copy owns a copy of the generator), fit, store back *)
 Definition lin_fit_arm (s : lin) (g : G) (a : A) (ds : list A) (rs : list R) (cx : mat (R:=R)) : option lin :=
   let '(x, y) := arm_rows a ds rs cx in
@@ -112,7 +114,9 @@ Definition lin_fit_arm (s : lin) (g : G) (a : A) (ds : list A) (rs : list R) (cx
       let m := aget_d aeqb ridge_new (l_models s) a in
       let m1 := mkRidge (r_beta m) (r_A m) (r_Ainv m) (r_Xty m) (r_scaler m)
                         (Some (match r_rng m with Some g' => g' | None => g end)) in
-      match ridge_fit (match l_nf s with Some d => d | None => O end) m1 x y with
+      let d := match l_nf s with Some d => d | None => O end in
+      if negb (Nat.eqb (ncols x) d) then None else      (* np.dot raises on a width mismatch *)
+      match ridge_fit d m1 x y with
       | None => None
       | Some m2 => Some (set_models s (aset aeqb (l_models s) a m2))
       end
@@ -138,8 +142,6 @@ Definition lset_trained (s : lin) (ds : list A) (is_partial : bool) : lin :=
           | None => stt
           end
         else stt) (l_arms s) (l_status s)).
-
-Definition ncols (cx : mat (R:=R)) : nat := match cx with r :: _ => length r | [] => O end.
 
 Definition lin_fit (s : lin) (g : G) ds rs (cx : mat (R:=R)) : lin * bool :=
   let d := ncols cx in
